@@ -99,9 +99,12 @@ func NewSymNormLaplacian(g graph.Undirected) Laplacian {
 
 // NewRandomWalkLaplacian returns a damp-scaled random walk Laplacian matrix for
 // the simple graph g.
-// The random walk Laplacian is defined as I-D^(-1)A where D is a diagonal matrix
-// holding the degree of each node and A is the graph adjacency matrix of the input
-// graph.
+// The random walk Laplacian is defined as I-A^TD^(-1), which is I-AD^(-1) for an
+// undirected graph, where D is a diagonal matrix holding the out degree of each
+// node and A is the graph adjacency matrix of the input graph: the column for a
+// node u holds 1 on the diagonal and -1/deg(u) in the row of each node reachable
+// from u, so each column sums to zero. The returned matrix is the random walk
+// Laplacian scaled by 1-damp. Columns for nodes with no outgoing edges are zero.
 // If g contains self edges, NewRandomWalkLaplacian will panic.
 func NewRandomWalkLaplacian(g graph.Graph, damp float64) Laplacian {
 	nodes := graph.NodesOf(g.Nodes())
